@@ -287,6 +287,107 @@ def args_untouched_bounded_instance():
     return Instance('C20', 'pb_bss:public-entry-points', 'bounded-read-only-arguments', make, call, ensures, mode='bounded', bounded_n=120, frame=False)
 
 
+def layouts_untouched_bounded_instance():
+    """Extraction / evaluation entry points with arguments in different memory layouts (C order, Fortran order, Hermitian-transposed
+    views, strided slices; writable or read-only): bit-identical afterwards and a repeated call reproduces the result."""
+    from pb_bss.extraction import beamformer as bf, beamformer_wrapper as bw, mask_module as mm
+    from pb_bss.evaluation import sxr_module as sx
+    from pb_bss.evaluation.module_si_sdr import si_sdr
+    from pb_bss.math import solve as ms
+
+    FN = ['psd', 'gev', 'gev-eig', 'pca', 'mvdr', 'souden', 'wmwf', 'lcmv', 'ban', 'phase', 'apply', 'bf-gev', 'bf-rank1', 'masks', 'si_sdr', 'sxr', 'stable_solve']
+
+    def make(B):
+        return {'fn': B.choose('fn', FN), 'layout': B.choose('layout', ['C', 'F', 'H', 'strided']), 'ro': B.choose('ro', [False, True]),
+                'seed': B.choose('seed', list(range(3000))), 'd': B.given('d', np.zeros(1))}
+
+    def lay(a, layout, hermitian=False):
+        if layout == 'F':
+            return np.asfortranarray(a)
+        if layout == 'H' and hermitian:
+            return np.conj(np.swapaxes(np.ascontiguousarray(np.conj(np.swapaxes(a, -1, -2))), -1, -2))     # same values, transposed memory
+        if layout == 'strided':
+            big = np.zeros(a.shape[:-1] + (2 * a.shape[-1],), dtype=a.dtype)
+            big[..., ::2] = a
+            return big[..., ::2]
+        return np.ascontiguousarray(a)
+
+    def call(inp):
+        rng = np.random.RandomState(inp['seed'])
+        F, D, T, K = 3, 3, 6, 2
+
+        def cn(*s):
+            return rng.normal(size=s) + 1j * rng.normal(size=s)
+        A, Bm = cn(F, D, D), cn(F, D, D)
+        tgt = lay(A @ np.conj(np.swapaxes(A, -1, -2)) + 0.05 * np.eye(D), inp['layout'], True)
+        noi = lay(Bm @ np.conj(np.swapaxes(Bm, -1, -2)) + 0.1 * np.eye(D), inp['layout'], True)
+        atf, w = lay(cn(F, D), inp['layout']), lay(cn(F, D), inp['layout'])
+        obs, mask = lay(cn(F, D, T), inp['layout']), lay(rng.uniform(0.1, 1, size=(F, T)), inp['layout'])
+        sig = lay(cn(K, F, T), inp['layout'])
+        ref, est = lay(rng.normal(size=(K, 40)), inp['layout']), lay(rng.normal(size=(K, 40)), inp['layout'])
+        img, noise_img = lay(rng.normal(size=(K, 2, 40)), inp['layout']), lay(rng.normal(size=(2, 40)), inp['layout'])
+        args = dict(tgt=tgt, noi=noi, atf=atf, w=w, obs=obs, mask=mask, sig=sig, ref=ref, est=est, img=img, noise_img=noise_img)
+        if inp['ro']:
+            for a in args.values():
+                a.flags.writeable = False
+        before = {k: np.array(v, copy=True) for k, v in args.items()}
+        fn = inp['fn']
+
+        def run():
+            if fn == 'psd':
+                return bf.get_power_spectral_density_matrix(obs, mask)
+            if fn == 'gev':
+                return bf.get_gev_vector(tgt, noi)
+            if fn == 'gev-eig':
+                return bf.get_gev_vector(tgt, noi, use_eig=True)
+            if fn == 'pca':
+                return bf.get_pca_vector(tgt)
+            if fn == 'mvdr':
+                return bf.get_mvdr_vector(atf, noi)
+            if fn == 'souden':
+                return bf.get_mvdr_vector_souden(tgt, noi, ref_channel=0)
+            if fn == 'wmwf':
+                return bf.get_wmwf_vector(tgt, noi, reference_channel=1)
+            if fn == 'lcmv':
+                return bf.get_lcmv_vector(np.stack([atf, w]), np.array([1.0, 0.0]), noi)
+            if fn == 'ban':
+                return bf.blind_analytic_normalization(w, noi)
+            if fn == 'phase':
+                return bf.phase_correction(w)
+            if fn == 'apply':
+                return bf.apply_beamforming_vector(w, obs)
+            if fn == 'bf-gev':
+                return bw.get_bf_vector('gev+ban', tgt, noi)
+            if fn == 'bf-rank1':
+                return bw.get_bf_vector('rank1_gev+mvdr_souden', tgt, noi)
+            if fn == 'masks':
+                return [mm.ideal_binary_mask(sig), mm.wiener_like_mask(sig), mm.ideal_ratio_mask(sig), mm.lorenz_mask(sig[0]), mm.quantile_mask(sig[0], quantile=0.25)]
+            if fn == 'si_sdr':
+                return si_sdr(ref, est)
+            if fn == 'sxr':
+                o = sx.input_sxr(img, noise_img)
+                return [o.sdr, o.sir, o.snr]
+            return ms.stable_solve(noi, tgt)
+        err = None
+        try:
+            with np.errstate(all='ignore'):
+                r1 = run()
+                changed = [k for k in args if not np.array_equal(before[k], args[k])]
+                r2 = run()
+        except Exception as e:  # noqa
+            return {'err': '%s: %s' % (type(e).__name__, e), 'changed': [], 'same': True}
+        f1, f2 = (r1 if isinstance(r1, list) else [r1]), (r2 if isinstance(r2, list) else [r2])
+        same = all(np.array_equal(np.asarray(a), np.asarray(b), equal_nan=True) for a, b in zip(f1, f2))
+        return {'err': err, 'changed': changed, 'same': same}
+
+    def ensures(sp, inp, out):
+        yield 'every-memory-layout-accepted', out['err'] is None
+        yield 'arguments-bit-identical-afterwards', not out['changed']
+        yield 'repeated-call-reproduces-the-result', bool(out['same'])
+
+    return Instance('C20', 'pb_bss:public-entry-points', 'bounded-memory-layouts-untouched', make, call, ensures, mode='bounded', bounded_n=200, frame=False)
+
+
 def instances(tier):
     out = frame_instances(tier)
     for n in (2, 3, 4):
@@ -298,6 +399,10 @@ def instances(tier):
     out.append(reuse_instance())
     out.append(reseed_instance())
     out.append(args_untouched_bounded_instance())
+    out.append(layouts_untouched_bounded_instance())
+    # results do not depend on what other trainer objects did before in the same process (class-level caches)
+    from .common import watson_spline_bounded_instance
+    out.append(watson_spline_bounded_instance('C20'))
     # fit(n1) followed by fit(n2, initialization=model) == fit(n1 + n2) for all n1, n2: the prologue with a model initialisation
     # yields the loop-head state of the uninterrupted loop, and the loop body preserves the invariant (contracts/loopinv.py)
     from . import loopinv
